@@ -19,6 +19,7 @@ import Nitime.Lemmas.C20Lanes
 import Nitime.Lemmas.C20Spectrum
 import Nitime.Lemmas.C20Object
 import Nitime.Lemmas.C20Fft
+import Nitime.Lemmas.C20Vec
 
 namespace Nitime.C20.Props
 open Finset Nitime.Ev Nitime.C20
@@ -399,7 +400,143 @@ theorem autocov_fft_eq_direct (cr : Bool) (x : List ℂ) (al db nm : Bool)
     (hreal : cr = false → ∀ v ∈ x, conj v = v) :
     autocovFft1 twTable cr x al db nm = autocov1 x al db nm := autocovFft_eq cr x al db nm hreal
 
+/-- `correlation_spectrum(norm=True)`: every bin is the un-normalised bin divided by the SUM of the full
+un-normalised spectrum (= the Pearson coefficient, `corrspec_sums_to_pearson`) times 2, so that the full
+normalised spectrum sums to 2 (its returned half, counted with the frequency-domain symmetry, to 1) whenever
+that sum is not 0; any cosine / sine tables -/
+theorem corrspec_norm_sums_to_two (c s : ℕ → ℝ) (a b : List ℝ) :
+    correlationSpectrumFull c s a b true
+      = (correlationSpectrumFull c s a b false).map
+          (fun v => v / (∑ k ∈ range a.length, nth (correlationSpectrumFull c s a b false) k) * 2) ∧
+    (correlationSpectrumFull c s a b true).length = a.length ∧
+    ((∑ k ∈ range a.length, nth (correlationSpectrumFull c s a b false) k) ≠ 0 →
+      ∑ k ∈ range a.length, nth (correlationSpectrumFull c s a b true) k = 2) := by
+  have hlen : (correlationSpectrumFull c s a b false).length = a.length := by
+    simp [correlationSpectrumFull]
+  have h1 : correlationSpectrumFull c s a b true
+      = (correlationSpectrumFull c s a b false).map
+          (fun v => v / (∑ k ∈ range a.length, nth (correlationSpectrumFull c s a b false) k) * 2) := by
+    rw [← sumRange_eq_r]
+    rfl
+  refine ⟨h1, by rw [h1, List.length_map, hlen], fun hS => ?_⟩
+  rw [h1]
+  have : ∀ k ∈ range a.length,
+      nth ((correlationSpectrumFull c s a b false).map
+        (fun v => v / (∑ k ∈ range a.length, nth (correlationSpectrumFull c s a b false) k) * 2)) k
+      = nth (correlationSpectrumFull c s a b false) k
+          / (∑ k ∈ range a.length, nth (correlationSpectrumFull c s a b false) k) * 2 := by
+    intro k hk
+    exact nth_map _ (by rw [hlen]; exact mem_range.mp hk)
+  rw [sum_congr rfl this, ← sum_mul, ← sum_div, div_self hS, one_mul]
+
+/-! ### `crosscov_vector` / `autocov_vector`, integer recordings -/
+
+/-- `utils.crosscov_vector(x, y, nlags)` is the lagged AVERAGE of its definition: entry `(i, j, k)` is
+`(1/(N-k))·Σ_{t<N-k} x_i[t+k]·conj(y_j[t])` (`N` = samples per channel), for every `k < nlags`
+(`nlags = None` → `N`); the result has shape `(nc_x, nc_y, nlags)` -/
+theorem crosscov_vector_is_lagged_average (x y : List (List ℂ)) (nl : Option ℕ) {i j k : ℕ}
+    (hi : i < x.length) (hj : j < y.length) (hk : k < nl.getD (x.headD []).length) :
+    nth (((crosscovVector x y nl).getD i []).getD j []) k
+      = (∑ t ∈ range ((x.headD []).length - k), nth (x.getD i []) (t + k) * conj (nth (y.getD j []) t))
+          / (((x.headD []).length - k : ℕ) : ℂ) ∧
+    (crosscovVector x y nl).length = x.length ∧ ((crosscovVector x y nl).getD i []).length = y.length ∧
+    (((crosscovVector x y nl).getD i []).getD j []).length = nl.getD (x.headD []).length :=
+  ⟨nth_crosscovVector x y nl hi hj hk, length_crosscovVector x y nl hi hj⟩
+
+/-- `autocov_vector(x) = crosscov_vector(x, x)`, and its zero-lag matrix is Hermitian:
+`R_xx(0)[j,i] = conj R_xx(0)[i,j]` -/
+theorem autocov_vector_zero_lag_hermitian (x : List (List ℂ)) (nl : Option ℕ) {i j : ℕ}
+    (hi : i < x.length) (hj : j < x.length) (hk : 0 < nl.getD (x.headD []).length) :
+    autocovVector x nl = crosscovVector x x nl ∧
+    nth (((autocovVector x nl).getD j []).getD i []) 0
+      = conj (nth (((autocovVector x nl).getD i []).getD j []) 0) := by
+  refine ⟨rfl, ?_⟩
+  unfold autocovVector
+  rw [nth_crosscovVector x x nl hj hi hk, nth_crosscovVector x x nl hi hj hk, map_div₀, map_sum, map_natCast]
+  congr 1
+  refine sum_congr rfl fun t _ => ?_
+  rw [map_mul, Complex.conj_conj, Nat.add_zero, mul_comm]
+
+/-- integer / boolean recordings are read by their value: the embedding is the integer cast, a real number -/
+theorem int_embedding_exact (z : ℤ) : (ofInt z : ℂ) = (z : ℂ) ∧ conj (ofInt z : ℂ) = ofInt z :=
+  ⟨ofInt_c z, conj_ofInt z⟩
+
+/-- the covariance family on INTEGER lanes: the code's FFT path (real branch) equals the direct path on the
+embedded samples for every flag combination, and every all-lags entry (no debias) is the lagged sum
+`Σ_n x[n+k]·y[n]` of the integer samples themselves (`/N` when normalised) — not a truncated value -/
+theorem crosscov_int_fft_is_lagged_sum (x y : List ℤ) (h : x.length = y.length) (nm : Bool) :
+    (∀ al db, crosscovFftCore twTable false (embed x) (embed y) al db nm = (crosscovInt x y al db nm : List ℂ)) ∧
+    (∀ al db, (crosscovInt x y al db nm : List ℂ) = crosscovCore (embed x) (embed y) al db nm) ∧
+    ∀ m, m < 2 * x.length - 1 →
+      nth (crosscovInt x y true false nm : List ℂ) m
+        = nrm nm x.length (∑ n ∈ range x.length,
+            if x.length - 1 ≤ n + m ∧ n + m - (x.length - 1) < x.length
+            then ((x.getD (n + m - (x.length - 1)) 0 : ℤ) : ℂ) * ((y.getD n 0 : ℤ) : ℂ) else 0) := by
+  refine ⟨fun al db => crosscovInt_fft x y al db nm, fun _ _ => rfl, fun m hm => ?_⟩
+  have hx : (embed x : List ℂ).length = x.length := length_embed x
+  have hl : (embed x : List ℂ).length = (embed y : List ℂ).length := by simp [h]
+  have := crosscov_is_lagged_sum (embed x) (embed y) hl false nm (m := m) (by rw [hx]; exact hm)
+  unfold crosscovInt
+  rw [this, hx]
+  congr 1
+  refine sum_congr rfl fun n hn => ?_
+  have hn' : n < x.length := mem_range.mp hn
+  split_ifs with hc
+  · have e1 : nth (pre false (embed x : List ℂ)) (n + m - (x.length - 1))
+        = ((x.getD (n + m - (x.length - 1)) 0 : ℤ) : ℂ) := nth_embed x hc.2
+    have e2 : nth (pre false (embed y : List ℂ)) n = ((y.getD n 0 : ℤ) : ℂ) := nth_embed y (h ▸ hn')
+    rw [e1, e2, map_intCast]
+  · rfl
+
+/-- `crosscov_vector` on integer channels is the lagged average of the integer samples (a rational
+number, in general not an integer) -/
+theorem crosscov_vector_int_is_lagged_average (x y : List (List ℤ)) (nl : Option ℕ) {i j k : ℕ}
+    (hi : i < x.length) (hj : j < y.length) (hk : k < nl.getD (x.headD []).length) :
+    nth (((crosscovVectorInt x y nl : List (List (List ℂ))).getD i []).getD j []) k
+      = (∑ t ∈ range ((x.headD []).length - k),
+          nth (embed (x.getD i []) : List ℂ) (t + k) * nth (embed (y.getD j []) : List ℂ) t)
+          / (((x.headD []).length - k : ℕ) : ℂ) := by
+  unfold crosscovVectorInt
+  have hN : ((x.map (embed (K := ℂ))).headD []).length = (x.headD []).length := by
+    cases x <;> simp
+  rw [nth_crosscovVector _ _ nl (by simpa using hi) (by simpa using hj) (by rw [hN]; exact hk), hN]
+  congr 1
+  refine sum_congr rfl fun t _ => ?_
+  have ex : (x.map (embed (K := ℂ))).getD i [] = embed (x.getD i []) := by
+    simp [List.getD_eq_getElem?_getD, List.getElem?_map, List.getElem?_eq_getElem hi]
+  have ey : (y.map (embed (K := ℂ))).getD j [] = embed (y.getD j []) := by
+    simp [List.getD_eq_getElem?_getD, List.getElem?_map, List.getElem?_eq_getElem hj]
+  rw [ex, ey]
+  congr 1
+  by_cases ht : t < (y.getD j []).length
+  · rw [nth_embed _ ht, map_intCast]
+  · rw [nth_embed_of_le _ (Nat.le_of_not_lt ht), map_zero]
+
+/-- allocating the result of `crosscov_vector` in the integer type of the inputs (`np.result_type(x, y)`,
+seeded change C11-8) is NOT the definition: one channel `[1, 2]` has the lag-0 average `5/2`, the integer
+array stores `2` -/
+theorem truncated_crosscov_vector_counterexample :
+    (crosscovVectorInt [[1, 2]] [[1, 2]] none : List (List (List Rat))) = [[[5 / 2, 2]]] ∧
+    crosscovVectorTrunc [[1, 2]] [[1, 2]] none = [[[2, 2]]] ∧
+    (crosscovVectorTrunc [[1, 2]] [[1, 2]] none).map (fun r => r.map fun s => s.map fun z => (z : Rat))
+      ≠ crosscovVectorInt [[1, 2]] [[1, 2]] none := by
+  decide +kernel
+
+/-- `autocov(x, axis=…)` / `autocorr`: every lane of the result along the axis is the 1-d auto-covariance of
+the corresponding lane (so `autocorr_hermitian`, `autocov_zero_lag`, `autocov_fft_eq_direct` apply lane by lane) -/
+theorem autocov_along_axis (x : ND ℂ) (axis : ℤ) (ax : ℕ) (hax : normAxis x.shape.length axis = some ax)
+    (al db nm : Bool) {o i : ℕ} (ho : o < outerOf x.shape ax) (hi : i < innerOf x.shape ax) :
+    ∃ r, autocovND x axis al db nm = .ok r ∧ lane r ax o i = autocov1 (lane x ax o i) al db nm := by
+  unfold autocovND
+  simp only [hax]
+  exact ⟨_, rfl, lane_mapLanes (fun a => autocov1 a al db nm) (fun n => if al then 2 * n - 1 else n)
+    (fun l => length_autocov1 l al db nm) x ax (normAxis_lt hax) ho hi⟩
+
 /-! ### non-vacuity -/
+example : (crosscovVector [[1, 2, 4]] [[3, 5, 4]] (some 2) : List (List (List Rat))) = [[[29 / 3, 13]]] := by
+  decide +kernel
+example : (crosscovInt [1, 2, 4] [3, 5, 4] true false false : List Rat) = [4, 13, 29, 26, 12] := by
+  decide +kernel
 example : (crosscovCore [1, 2, 4] [3, 5, 4] true false false : List Rat) = [4, 13, 29, 26, 12] := by
   decide +kernel
 example : (crosscovCore [3, 5, 4] [1, 2, 4] true false false : List Rat) = [12, 26, 29, 13, 4] := by
